@@ -48,6 +48,24 @@ impl<K, V> Default for HashMap<K, V> {
     }
 }
 
+/// (API that realistic changes of the code under verification may start to use: `collect()` into a map, `extend`,
+/// `with_capacity` - same bounded semantics, capacity overflow is a pruned path as for `insert`)
+impl<K: Eq, V> FromIterator<(K, V)> for HashMap<K, V> {
+    fn from_iter<I: IntoIterator<Item = (K, V)>>(iter: I) -> Self {
+        let mut m = HashMap::default();
+        for (k, v) in iter {
+            m.insert(k, v);
+        }
+        m
+    }
+}
+impl<K: Eq, V> Extend<(K, V)> for HashMap<K, V> {
+    fn extend<I: IntoIterator<Item = (K, V)>>(&mut self, iter: I) {
+        for (k, v) in iter {
+            self.insert(k, v);
+        }
+    }
+}
 impl<K: fmt::Debug, V: fmt::Debug> fmt::Debug for HashMap<K, V> {
     fn fmt(&self, f: &mut fmt::Formatter<'_>) -> fmt::Result {
         f.debug_map().entries(self.iter()).finish()
@@ -188,6 +206,9 @@ impl<K, V> HashMap<K, V> {
         Self::default()
     }
     /// model-only constructor: build a map from explicit slots (harness pre-states)
+    pub fn with_capacity(_n: usize) -> Self {
+        Self::default()
+    }
     pub fn from_slots(slots: [Option<(K, V)>; CAP]) -> Self {
         HashMap { slots: core::mem::ManuallyDrop::new(Box::new(slots)), pending: core::cell::UnsafeCell::new(None) }
     }
